@@ -156,6 +156,18 @@ impl MemTable {
 	/// * `batch` - The batch of operations to apply
 	/// * `starting_seq_num` - The starting sequence number for this batch (records get consecutive
 	///   numbers)
+	/// Upper bound of the arena space `batch` needs in an EMPTY memtable (head and tail
+	/// nodes included). A batch above the configured memtable size can never be applied.
+	pub(crate) fn arena_upper_bound(batch: &Batch) -> usize {
+		let per_entry = skiplist::max_entry_overhead();
+		1 + 2 * per_entry
+			+ batch
+				.entries
+				.iter()
+				.map(|e| per_entry + e.key.len() + e.value.as_ref().map_or(0, |v| v.len()))
+				.sum::<usize>()
+	}
+
 	pub(crate) fn add(&self, batch: &Batch) -> Result<()> {
 		let highest_seq_num = self.apply_batch_to_memtable(batch)?;
 		self.update_latest_sequence_number(highest_seq_num);
